@@ -34,14 +34,15 @@ def gen_fact(rng, n, cols=None, allow_int=True, garbage=True):
         vals = [rng.randint(-5, 9) for _ in range(size)]
     else:
         vals = [rng.choice((0.0, 1.0, 2.5, -1.5, 3.0, 0.25, 7.0, rng.uniform(-4, 4))) for _ in range(size)]
+    layout = rng.choice(("plain", "plain", "strided", "readonly", "fortran"))
     if form == "nan":
         vals = [v if ok else NAN for v, ok in zip(vals, validity)]
-        return {"form": "nan", "dtype": "float", "shape": shape, "values": _enc(vals), "validity": None}
+        return {"form": "nan", "dtype": "float", "shape": shape, "values": _enc(vals), "validity": None, "layout": layout}
     if garbage:
         # values hidden under a False validity are arbitrary, including NaN
         vals = [v if ok else (rng.choice((NAN, 1e9, -7.0)) if dtype == "float" else rng.choice((10 ** 6, -99)))
                 for v, ok in zip(vals, validity)]
-    return {"form": "tuple", "dtype": dtype, "shape": shape, "values": _enc(vals), "validity": validity}
+    return {"form": "tuple", "dtype": dtype, "shape": shape, "values": _enc(vals), "validity": validity, "layout": layout}
 
 
 def gen_weights(rng, n, array_only=False):
@@ -168,11 +169,28 @@ def build_var(spec):
         return None
     if spec["form"] == "scalar":
         return spec["value"]
-    arr = _dec(spec["values"], spec["dtype"]).reshape(spec["shape"])
+    arr = _layout(_dec(spec["values"], spec["dtype"]).reshape(spec["shape"]), spec.get("layout"))
     if spec["form"] == "nan":
         return arr
-    validity = numpy.array(spec["validity"], dtype=bool).reshape(spec["shape"])
+    validity = _layout(numpy.array(spec["validity"], dtype=bool).reshape(spec["shape"]), spec.get("layout"))
     return (arr, validity)
+
+
+def _layout(a, layout):
+    """How the caller happened to create the array: strided view, read-only, Fortran order."""
+    if layout == "strided":
+        big = numpy.zeros((a.shape[0] * 2,) + a.shape[1:], dtype=a.dtype)
+        big[::2] = a
+        if a.dtype.kind == "f":
+            big[1::2] = 12345.0
+        return big[::2]
+    if layout == "readonly":
+        a = a.copy()
+        a.setflags(write=False)
+        return a
+    if layout == "fortran" and a.ndim == 2:
+        return numpy.asfortranarray(a)
+    return a
 
 
 def build_rma(r):
